@@ -1,6 +1,7 @@
 #include "Strings.hh"
 
 #define _STDC_FORMAT_MACROS
+#include <errno.h>
 #include <inttypes.h>
 #include <stdarg.h>
 #include <stdint.h>
@@ -189,11 +190,19 @@ wstring wstring_vprintf(const wchar_t* fmt, va_list va) {
   result.resize(wcslen(fmt) * 2); // silly guess
 
   ssize_t written = -1;
-  while ((written < 0) || (written > static_cast<ssize_t>(result.size()))) {
+  while (written < 0) {
     va_list tmp_va;
     va_copy(tmp_va, va);
-    written = vswprintf(result.data(), result.size(), fmt, va);
+    errno = 0;
+    written = vswprintf(result.data(), result.size(), fmt, tmp_va);
     va_end(tmp_va);
+    if (written < 0) {
+      if (errno == EILSEQ) {
+        throw runtime_error("invalid character sequence in wstring_vprintf");
+      }
+      // The output (including the terminator) did not fit; try a larger buffer
+      result.resize((result.size() + 8) * 2);
+    }
   }
   result.resize(written);
   return result;
